@@ -28,6 +28,7 @@ var (
 	vx   = []byte("x")  // block-level pending value
 	va   = []byte("a")
 	vb   = []byte("b")
+	ve   = []byte{} // a present key with a zero-length value (0 chunks)
 )
 
 type mapStore map[string][]byte
@@ -81,6 +82,9 @@ func init() {
 	for k := range keys {
 		for _, v := range [][]byte{va, vb, v0, vx} {
 			ops = append(ops, opDef{kind: opInsert, key: k, val: v, name: fmt.Sprintf("insert(%c,%s)", keys[k][0], v)})
+		}
+		if k == 0 {
+			ops = append(ops, opDef{kind: opInsert, key: k, val: ve, name: fmt.Sprintf("insert(%c,<empty value>)", keys[k][0])})
 		}
 		ops = append(ops, opDef{kind: opRemove, key: k, name: fmt.Sprintf("remove(%c)", keys[k][0])})
 	}
